@@ -225,11 +225,18 @@ func (m *Machine) ProcessPacket(out, packet []byte) ([]byte, *Result, error) {
 	// noise returns (cs1, cs2) where cs1 is the initiator->responder cipher.
 	// For 3-message patterns where a responder finishes by reading the final
 	// message, this ordering would be wrong; revisit when XX/pqIX lands.
+	hashBefore := append([]byte(nil), m.hs.ChannelBinding()...)
 	msg, eKey, dKey, err := m.hs.ReadMessage(nil, packet[header.Len:])
 	if err != nil {
 		// Noise ReadMessage failed. The noise library checkpoints and rolls back
-		// on failure, so the Machine is still alive. The caller can retry with
-		// a different packet.
+		// on decryption failures, so the Machine is normally still alive and the
+		// caller can retry with a different packet. It does not roll back on every
+		// error path though (a message too short for a later token, a DH error on
+		// a low-order or invalid ephemeral key): if the handshake hash moved, the
+		// state has advanced and no genuine message can complete it any more.
+		if !bytes.Equal(hashBefore, m.hs.ChannelBinding()) {
+			m.failed = true
+		}
 		return nil, nil, fmt.Errorf("noise ReadMessage: %w", err)
 	}
 
